@@ -173,10 +173,10 @@ let dispatch (cmd : string) (args : sx list) : sx =
   | "neighborhood", [vs] ->
       let nv_ x = match lst x with [n; c; f] -> ((nat_ n, z_ c), bool_ f) | _ -> failwith "nvar" in
       w_list (w_list w_z) (neighborhood (list_ nv_ vs))
-  | "fast_decode", [chk; g; vars; x; fixed] ->
+  | "fast_decode", [chk; g; ovars; vars; x; fixed] ->
       (* the fast encoder's decode on the graph model: none = the model gives up; (some none) = no feasible vector *)
       w_opt (w_opt (fun (imp, inst) -> L [w_list w_z imp; w_list w_n inst]))
-        (fast_decode (bool_ chk) (dsg_ g) (list_ (pair_ n_ (list_ n_)) vars) (list_ z_ x) (list_ bool_ fixed))
+        (fast_decode (bool_ chk) (dsg_ g) (list_ (pair_ n_ (list_ n_)) ovars) (list_ (pair_ n_ (list_ n_)) vars) (list_ z_ x) (list_ bool_ fixed))
   | "persist_run", [h; ops] -> w_list w_n (prun_ids (list_ n_ h) (list_ (pair_ bool_ (pair_ nat_ n_)) ops))
   | "key_eq", [s1; p1; s2; p2] ->
       w_bool (ckey_eqb (cache_key (settings_ s1) (opt_ (list_ existence_) p1)) (cache_key (settings_ s2) (opt_ (list_ existence_) p2)))
